@@ -246,13 +246,13 @@ func RawDump(n ast.Node) string {
 // ---------------------------------------------------------------- token wire format
 
 // TokWire encodes the scanner's token stream: tokens separated by '`';
-// each is [!]spelling[~hexliteral]; '!' = implicitSemicolon (newline before).
+// each is [#]spelling[~hexliteral]; '#' = implicitSemicolon (newline before).
 func TokWire(toks []parser.VerifTok) string {
 	parts := make([]string, 0, len(toks))
 	for _, t := range toks {
 		s := ""
 		if t.NL {
-			s = "!"
+			s = "#"
 		}
 		switch t.Tok {
 		case token.IDENTIFIER, token.NUMBER, token.STRING, token.BOOLEAN, token.NULL, token.KEYWORD, token.ILLEGAL:
